@@ -146,7 +146,7 @@ pub struct RCase {
 
 pub fn check_rcase(c: &RCase, env: &Env) -> Result<(RNotes, Built), Failure> {
     let b = c.img.build(c.cfg.e, c.cfg.r.word().bits(), c.cut_words);
-    let s = RStream { cfg: c.cfg, model: &b.model, starts: &b.starts, tables: &env.tables };
+    let s = RStream { cfg: c.cfg, model: &b.model, starts: &b.starts, tables: &env.tables, free_codes: &[] };
     let n = run_reader(&s, &c.ops)?;
     Ok((n, b))
 }
